@@ -1,8 +1,10 @@
 """C06 — note-length quantisation.  Deciding oracle: post-contract on the real
 AbsoluteSequence.quantise_note_lengths; driver supplies workloads and checks view agreement."""
 from vmon import gen
-from vmon.checks.common import obs, fail, both_views, random_prefix, apply_prefix, same_then_edit
+from vmon.checks.common import wrapper_agrees, obs, fail, both_views, random_prefix, apply_prefix, same_then_edit
 
+EXTREMES = "seq"   # worker re-labels every sixth case to the ends of the legal ranges (gen.extremify)
+RESTATE = "seq"    # worker adds a signature restating the one in force to every fifth case (gen.restate_signatures)
 PROP = "C06"
 MONITORS = ["qnl"]
 INSITU = {"k": "quantise or composition or tokenisation or bar or track or example or transpose"}
@@ -69,12 +71,18 @@ def run(case, ctx):
     s = gen.build_seq(case["seq"])
     s = apply_prefix(s, case.get("prefix", []))
     before = obs(s)
+    twin = s.copy()
     if case["values"] is None:
         s.quantise_note_lengths(do_not_extend=case["dne"])
     else:
         s.quantise_note_lengths(list(case["values"]), do_not_extend=case["dne"])
     after = obs(s)
     fails = []
+
+    def inner(t):
+        t.abs.quantise_note_lengths(None if case["values"] is None else list(case["values"]), do_not_extend=case["dne"])
+        t.invalidate_rel()
+    fails += wrapper_agrees(twin, inner, after, "quantise_note_lengths")
     ea, da, er, dr = both_views(s)
     if ea != er or da != dr:
         fails.append(fail("views_disagree_after_qnl", (da, dr)))
